@@ -20,6 +20,61 @@ I = "_griffe.agents.inspector"
 R = "_griffe.agents.nodes.runtime"
 
 
+def inspect_class_bases_table(prog: Program, ctx: Ctx, rule: str) -> None:
+    """Inspector.inspect_class on class hierarchies synthesised here (shared by C17-R9 and C07-R7)."""
+    it = Interp(prog)
+    ctx.rule(rule, "inspect_class records the class's own direct bases (object aside) - what the class statement lists and the static side records - also "
+                   "for generic hierarchies, where dunder attributes such as __orig_bases__ are inherited by plain subclasses")
+    import typing
+
+    T = typing.TypeVar("T")
+
+    class Plain:
+        pass
+
+    class Repo(typing.Generic[T]):
+        pass
+
+    class Cached(Repo):  # plain descendant of a generic class: inherits __orig_bases__
+        pass
+
+    class Typed(Plain, Repo[str]):
+        pass
+
+    class Sub(Typed):
+        pass
+
+    class Both(Plain, Cached):
+        pass
+
+    class Proto(typing.Protocol[T]):
+        pass
+
+    ic = prog.function(f"{I}.Inspector.inspect_class")
+    made: list = []
+    it.class_stubs["_griffe.models.Class"] = lambda _i, **k: (made.append(k), Obj(prog.cls("_griffe.models.Class"), {"parent": None, **k}))[1]
+    it.stubs[f"{I}.Inspector._get_linenos"] = lambda _i, *_a, **_k: (1, 2)
+    it.stubs[f"{I}.Inspector._get_docstring"] = lambda _i, *_a, **_k: None
+    it.stubs[f"{I}.Inspector.generic_inspect"] = lambda _i, *_a, **_k: None
+    for klass_ in (Plain, Repo, Cached, Typed, Sub, Both, Proto):
+        made.clear()
+        cur = Obj(None, {"parent": None, "path": "m"}, label="m")
+        cur.attrs["set_member"] = Native(lambda _n, v_, cur=cur: v_.attrs.__setitem__("parent", cur))
+        insp = Obj(prog.cls(f"{I}.Inspector"), {"extensions": Obj(None, {"call": Native(lambda *_a, **_k: None)}), "current": cur}, label="inspector")
+        try:
+            it.steps = 0
+            it.call(ic, insp, Obj(None, {"obj": klass_, "name": klass_.__name__}))
+            got = [b.rsplit(".", 1)[-1] for b in made[0]["bases"]] if made else "no class built"
+        except Raised as r:
+            got = f"raises {r.exc}"
+        want = [b.__qualname__.rsplit(".", 1)[-1] for b in klass_.__bases__ if b is not object]
+        ctx.ob(rule, f"bases|{klass_.__name__}", got == want, f"class {klass_.__name__}({', '.join(want)}): the inspector records bases {got}", where(ic))
+    for q in ("_get_linenos", "_get_docstring", "generic_inspect"):
+        it.stubs.pop(f"{I}.Inspector.{q}", None)
+    it.class_stubs.pop("_griffe.models.Class", None)
+
+
+
 def run(prog: Program, ctx: Ctx) -> None:  # noqa: PLR0912,PLR0915
     insp = prog.cls(f"{I}.Inspector")
     it = Interp(prog)
@@ -174,55 +229,7 @@ def run(prog: Program, ctx: Ctx) -> None:  # noqa: PLR0912,PLR0915
     alignment_table(prog, ctx, "R7", 2, 2, 500)
 
     # ------------------------------------------------------------------ R9 bases of inspected classes
-    ctx.rule("R9", "inspect_class records the class's own direct bases (object aside) - what the class statement lists and the static side records - also "
-                   "for generic hierarchies, where dunder attributes such as __orig_bases__ are inherited by plain subclasses")
-    import typing
-
-    T = typing.TypeVar("T")
-
-    class Plain:
-        pass
-
-    class Repo(typing.Generic[T]):
-        pass
-
-    class Cached(Repo):  # plain descendant of a generic class: inherits __orig_bases__
-        pass
-
-    class Typed(Plain, Repo[str]):
-        pass
-
-    class Sub(Typed):
-        pass
-
-    class Both(Plain, Cached):
-        pass
-
-    class Proto(typing.Protocol[T]):
-        pass
-
-    ic = prog.function(f"{I}.Inspector.inspect_class")
-    made: list = []
-    it.class_stubs["_griffe.models.Class"] = lambda _i, **k: (made.append(k), Obj(prog.cls("_griffe.models.Class"), {"parent": None, **k}))[1]
-    it.stubs[f"{I}.Inspector._get_linenos"] = lambda _i, *_a, **_k: (1, 2)
-    it.stubs[f"{I}.Inspector._get_docstring"] = lambda _i, *_a, **_k: None
-    it.stubs[f"{I}.Inspector.generic_inspect"] = lambda _i, *_a, **_k: None
-    for klass_ in (Plain, Repo, Cached, Typed, Sub, Both, Proto):
-        made.clear()
-        cur = Obj(None, {"parent": None, "path": "m"}, label="m")
-        cur.attrs["set_member"] = Native(lambda _n, v_, cur=cur: v_.attrs.__setitem__("parent", cur))
-        insp = Obj(prog.cls(f"{I}.Inspector"), {"extensions": Obj(None, {"call": Native(lambda *_a, **_k: None)}), "current": cur}, label="inspector")
-        try:
-            it.steps = 0
-            it.call(ic, insp, Obj(None, {"obj": klass_, "name": klass_.__name__}))
-            got = [b.rsplit(".", 1)[-1] for b in made[0]["bases"]] if made else "no class built"
-        except Raised as r:
-            got = f"raises {r.exc}"
-        want = [b.__qualname__.rsplit(".", 1)[-1] for b in klass_.__bases__ if b is not object]
-        ctx.ob("R9", f"bases|{klass_.__name__}", got == want, f"class {klass_.__name__}({', '.join(want)}): the inspector records bases {got}", where(ic))
-    for q in ("_get_linenos", "_get_docstring", "generic_inspect"):
-        it.stubs.pop(f"{I}.Inspector.{q}", None)
-    it.class_stubs.pop("_griffe.models.Class", None)
+    inspect_class_bases_table(prog, ctx, "R9")
 
     # ------------------------------------------------------------------ R11 one recorded parameter per runtime parameter, whatever the annotations say
     ctx.rule("R11", "handle_function records exactly the parameters of the runtime signature (names, kinds, defaults), also when string annotations "
